@@ -30,6 +30,10 @@ pub struct Puppet {
     pub named_for_s: u32,
     /// times (s) at which this puppet sends the node a ping (while it is not silent)
     pub queries_at_s: Vec<u32>,
+    /// the node's socket refuses to send to this puppet's address (port 0): every `send_to`
+    /// fails; such a puppet is silent from the start and only ever known by hearsay
+    #[serde(default)]
+    pub unsendable: bool,
 }
 
 #[derive(Clone, Debug, Serialize, Deserialize)]
@@ -73,9 +77,10 @@ pub fn puppet_id(i: usize) -> Id {
 pub fn run_maint(c: &MaintCase, sample_ms: u64, probe_ms: u64) -> Trace {
     let rt = paused_rt(c.rt_seed);
     rt.block_on(async {
-        let net = SimNet::new(Box::new(Instant0));
         let node = fam_addr(c.v6, 1, 6881);
-        let puppets: Vec<(Id, SocketAddr)> = (0..c.puppets.len()).map(|i| (puppet_id(i), fam_addr(c.v6, 100 + i as u16, 7000 + i as u16))).collect();
+        let puppets: Vec<(Id, SocketAddr)> = (0..c.puppets.len()).map(|i| (puppet_id(i), fam_addr(c.v6, 100 + i as u16, if c.puppets[i].unsendable { 0 } else { 7000 + i as u16 }))).collect();
+        let bad: Vec<SocketAddr> = puppets.iter().zip(&c.puppets).filter(|(_, s)| s.unsendable).map(|(p, _)| p.1).collect();
+        let net = SimNet::new(Box::new(move |d: &Dgram| if d.from == node && bad.contains(&d.to) { Fate::SendError } else { Fate::Deliver(vec![Duration::ZERO]) }));
         let specs = Arc::new(c.puppets.clone());
         for (i, (id, a)) in puppets.iter().enumerate() {
             let specs = specs.clone();
@@ -180,10 +185,15 @@ pub fn puppet_strategy(max_secs: u32) -> impl Strategy<Value = Puppet> {
         prop_oneof![Just(0u32), 0u32..120, 0u32..900],
         vec(0u32..max_secs, 0..6),
     )
-        .prop_map(|(silent_from_s, rtt_ms, is_contact, named_for_s, queries_at_s)| Puppet { silent_from_s, rtt_ms, is_contact, named_for_s, queries_at_s })
+        .prop_map(|(silent_from_s, rtt_ms, is_contact, named_for_s, queries_at_s)| Puppet { silent_from_s, rtt_ms, is_contact, named_for_s, queries_at_s, unsendable: false })
 }
 
 pub fn maint_case(min_secs: u32, max_secs: u32, with_searches: bool, max_puppets: usize) -> BoxedStrategy<MaintCase> {
+    maint_case_u(min_secs, max_secs, with_searches, max_puppets, false)
+}
+
+/// `with_unsendable`: some puppets (1 in 8) get an address the node cannot send to
+pub fn maint_case_u(min_secs: u32, max_secs: u32, with_searches: bool, max_puppets: usize, with_unsendable: bool) -> BoxedStrategy<MaintCase> {
     (min_secs..max_secs)
         .prop_flat_map(move |secs| {
             (
@@ -194,9 +204,17 @@ pub fn maint_case(min_secs: u32, max_secs: u32, with_searches: bool, max_puppets
                 if with_searches { vec((0u32..secs, any::<bool>(), 0u8..3), 0..4).boxed() } else { Just(vec![]).boxed() },
                 any::<u64>(),
                 any::<bool>(),
+                vec(prop::bool::weighted(if with_unsendable { 0.125 } else { 0.0 }), max_puppets),
             )
         })
-        .prop_map(|(v6, mut puppets, gossip, secs, searches, rt_seed, single)| {
+        .prop_map(|(v6, mut puppets, gossip, secs, searches, rt_seed, single, unsendable)| {
+            for (p, u) in puppets.iter_mut().zip(unsendable) {
+                if u {
+                    p.unsendable = true;
+                    p.silent_from_s = Some(0);
+                    p.queries_at_s.clear();
+                }
+            }
             // regimes: single contact (periodic re-bootstrap through one door) or well connected;
             // at least one contact always exists
             if single {
@@ -282,7 +300,7 @@ impl Stage for C11Runs {
         tier.pick(320, 3000)
     }
     fn strategy(&self, tier: Tier) -> BoxedStrategy<MaintCase> {
-        maint_case(1800, tier.pick(3 * 3600, 12 * 3600), true, 8)
+        maint_case_u(1800, tier.pick(3 * 3600, 12 * 3600), true, 8, true)
     }
     fn watchdog_secs(&self, tier: Tier) -> u64 {
         tier.pick(900, 3600)
@@ -370,7 +388,7 @@ impl Stage for C11Runs {
             .label(if c.searches.is_empty() { "no-searches" } else { "with-searches" })
     }
     fn rule(&self) -> String {
-        "one real serving node and 1..8 scripted contacts (ids in distinct buckets, so no bucket fills), each always answering or silent from a generated time, round trips < 400 ms, loss-free; single-contact regime (one bootstrap contact, the rest learnt by hearsay) or well connected; contacts name each other (and keep naming a silent one for 0..15 min); 0..3 user searches; optional pings from contacts; run length 30 min..3 h (thorough ..12 h). Contacts sampled every 2 virtual seconds, find_node probe every 30 s. Oracle: an always-answering contact, once in the contacts, is in every later sample and never outside `good` for 30 s or more; a contact silent since t is absent from contacts and probe answers after max(last delivered answer (or last query from it) + 20 min, last time a delivered response named it + 5 min). Non-trivial: run >= 45 min with contacts of both kinds, or a silent contact that was still named after it went silent".into()
+        "one real serving node and 1..8 scripted contacts (ids in distinct buckets, so no bucket fills), each always answering or silent from a generated time (1 in 8: an address with port 0 that the node's socket refuses to send to, known by hearsay only), round trips < 400 ms, loss-free; single-contact regime (one bootstrap contact, the rest learnt by hearsay) or well connected; contacts name each other (and keep naming a silent one for 0..15 min); 0..3 user searches; optional pings from contacts; run length 30 min..3 h (thorough ..12 h). Contacts sampled every 2 virtual seconds, find_node probe every 30 s. Oracle: an always-answering contact, once in the contacts, is in every later sample and never outside `good` for 30 s or more; a contact silent since t is absent from contacts and probe answers after max(last delivered answer (or last query from it) + 20 min, last time a delivered response named it + 5 min). Non-trivial: run >= 45 min with contacts of both kinds, or a silent contact that was still named after it went silent".into()
     }
     fn sample(&self, c: &MaintCase) -> serde_json::Value {
         serde_json::json!({"secs": c.secs, "gossip": c.gossip, "puppets": c.puppets.iter().map(|p| format!("silent_from={:?} rtt={} contact={} named_for={}", p.silent_from_s, p.rtt_ms, p.is_contact, p.named_for_s)).collect::<Vec<_>>(), "searches": c.searches})
